@@ -28,8 +28,10 @@ from typing import Any, Callable, Dict, Iterable, List, Optional, Sequence, Tupl
 VERIF = Path(__file__).resolve().parent.parent
 LEAN = VERIF / "lean"
 REPO = Path(os.environ.get("PYRTMA_REPO", "/repo")).resolve()
-EVIDENCE = VERIF / "evidence"
-REPLAYS = VERIF / "replays"
+# the two output directories can be redirected (tools/mutate_check.py: sweeps over mutants of a scratch worktree must not
+# overwrite the evidence and replays of the real tree)
+EVIDENCE = Path(os.environ.get("VERIF_EVIDENCE_DIR") or VERIF / "evidence")
+REPLAYS = Path(os.environ.get("VERIF_REPLAYS_DIR") or VERIF / "replays")
 CORPUS = VERIF / "corpus"
 ALLOWED_AXIOMS = {"propext", "Classical.choice", "Quot.sound"}
 FORBIDDEN_RE = re.compile(
@@ -305,9 +307,10 @@ def write_replay(prop: str, seed: int, body: Dict[str, Any]) -> str:
         n += 1
     body = dict(body)
     body.setdefault("property", prop)
-    body.setdefault("rerun", f"./check {prop} --replay {p.relative_to(VERIF)}")
+    rel = p.relative_to(VERIF) if p.is_relative_to(VERIF) else p
+    body.setdefault("rerun", f"./check {prop} --replay {rel}")
     p.write_text(json.dumps(body, indent=1, default=repr))
-    return str(p.relative_to(VERIF))
+    return str(rel)
 
 
 def finish(res: Result, build_ok: bool, build_log: str, aud: Dict[str, Any], level: str = "proof",
